@@ -97,6 +97,52 @@ def bitfield_roles(vals):
                 given = pos + list(kw.values())
                 if given.count(ln) == 1 and given.count(lv) == 1 and set(given) <= {ln, lv, "cls"} and None not in kw:
                     sets.append((lp, c, classes[call_name(k)], ln, lv))
+    # second form: the accessors are built first - `objs = [K(.. name .. mask ..) for name, mask in <members> if <pred>]` - and
+    # installed in a loop over them: `for o in objs: setattr(cls, o.<the attribute K keeps the name in>, o)`
+    built = None
+    if not sets:
+        for lp in [n for n in ast.walk(dec) if isinstance(n, ast.For) and _owner(n) is dec and isinstance(n.target, ast.Name)
+                   and isinstance(n.iter, ast.Name)]:
+            o = lp.target.id
+            defs = [a for a in ast.walk(dec) if isinstance(a, ast.Assign) and len(a.targets) == 1 and isinstance(a.targets[0], ast.Name)
+                    and a.targets[0].id == lp.iter.id]
+            if len(defs) != 1 or not isinstance(defs[0].value, ast.ListComp) or len(defs[0].value.generators) != 1:
+                continue
+            lc = defs[0].value
+            g = lc.generators[0]
+            if not (isinstance(g.target, ast.Tuple) and len(g.target.elts) == 2 and all(isinstance(e, ast.Name) for e in g.target.elts)
+                    and isinstance(lc.elt, ast.Call) and call_name(lc.elt) in classes):
+                continue
+            ln, lv = (e.id for e in g.target.elts)
+            k = lc.elt
+            given = [norm(x) for x in k.args] + [norm(x.value) for x in k.keywords]
+            if not (given.count(ln) == 1 and given.count(lv) == 1 and set(given) <= {ln, lv, "cls"} and all(x.arg for x in k.keywords)):
+                continue
+            kcls = classes[call_name(k)]
+            init = next((m for m in kcls.body if isinstance(m, ast.FunctionDef) and m.name == "__init__"), None)
+            if init is None:
+                continue
+            ipar = [a.arg for a in init.args.args][1:]
+            bound = dict(zip(ipar, [norm(x) for x in k.args]))
+            bound.update({x.arg: norm(x.value) for x in k.keywords})
+            name_par = next((p_ for p_, v_ in bound.items() if v_ == ln), None)
+            keeps = [t_.attr for st_ in init.body if isinstance(st_, ast.Assign) and isinstance(st_.value, ast.Name) and st_.value.id == name_par
+                     for t_ in st_.targets if isinstance(t_, ast.Attribute) and isinstance(t_.value, ast.Name) and t_.value.id == init.args.args[0].arg]
+            for c in ast.walk(lp):
+                if isinstance(c, ast.Call) and call_name(c) == "setattr" and len(c.args) == 3 and norm(c.args[0]) == "cls" \
+                        and norm(c.args[2]) == o and isinstance(c.args[1], ast.Attribute) and norm(c.args[1].value) == o and c.args[1].attr in keeps:
+                    src_ = members_source([dec], g.iter)
+                    guard_ = [norm(x) for x in g.ifs] == [f"{PRED}({ln}, {lv})"]
+                    if (src_ == "filtered" and not g.ifs) or (src_ == "all" and guard_):
+                        built = (lp, c, kcls, ln, lv, k)
+    if built is not None:
+        lp, call, kcls, ln, lv, k = built
+        meth = {m.name: m for m in kcls.body if isinstance(m, ast.FunctionDef)}
+        if "__get__" not in meth:
+            raise AnalysisError("model guard G5: the accessor class of tpm_bitfield has no __get__")
+        role = {ln: "name", lv: "mask", "cls": "cls"}
+        return dict(dec=dec, loop=lp, install=call, accessor=kcls, init=meth.get("__init__"), get=meth["__get__"],
+                    init_args=[role[norm(x)] for x in k.args], init_kwargs={x.arg: role[norm(x.value)] for x in k.keywords})
     if len(sets) != 1:
         raise AnalysisError("model guard G5: tpm_bitfield no longer installs one accessor(name, mask) for each public attribute")
     lp, call, kcls, ln, lv = sets[0]
